@@ -179,11 +179,19 @@ func runCase(c *Case, typ reflect.Type) string {
 	rt.Journal(sub, func() string { x, _ := stdjson.Marshal(c); return string(x) })
 	rt.Count("cases/"+sub, 1)
 	vptr := outer.Field(1).Addr().Interface()
+	// the caller's input slice has spare capacity (filled with the canary): neither the bytes nor the
+	// spare room belong to the decoder
+	input := make([]byte, len(doc), len(doc)+24)
+	copy(input, doc)
+	spare := input[len(doc):cap(input)]
+	for i := range spare {
+		spare[i] = canary
+	}
 	var gerr error
 	pv := rt.Guard(func() {
 		switch c.Entry {
 		case "unmarshal":
-			gerr = gojson.Unmarshal(doc, vptr)
+			gerr = gojson.Unmarshal(input, vptr)
 		case "decoder":
 			gerr = gojson.NewDecoder(bytes.NewReader(doc)).Decode(vptr)
 		default:
@@ -195,6 +203,15 @@ func runCase(c *Case, typ reflect.Type) string {
 	}
 	if pv != nil {
 		return fail("decode panicked: %v", pv)
+	}
+	// (0) the caller's input and the spare capacity behind it are untouched
+	if !bytes.Equal(input, doc) {
+		return fail("the input bytes were modified by the call: % x", input)
+	}
+	for k, x := range spare {
+		if x != canary {
+			return fail("the spare capacity of the caller's input slice was written at +%d: % x", k, spare)
+		}
 	}
 	// (1) canaries and the sibling W are untouched
 	for _, i := range []int{0, 2, 4} {
